@@ -303,4 +303,184 @@ theorem unregEndOn_inv {dt : State → Nat → State} (hp : Pres1 dt) (hdt : IDt
       exact endOnFold_inv hp hdt C W src name _ _
         (h.setEndOn _ (fun o ho => Or.inl (Tbl.hasOwner_removeKey ho)))
 
+/-! ### the notify part of `Unregister(name)` -/
+
+/-- a listener that owned an entry before a purge and owns none afterwards was reported as stopped -/
+theorem lost_owner_stopped {T : Tbl} (hT : Tbl.WF T) (al : Nat → Bool) (src name : Nat) (list st : List Nat)
+    {x : Nat} (ho : Tbl.hasOwner T x = true)
+    (hno : ¬ Tbl.hasOwner (Tbl.purge al T src name list st).1 x = true) :
+    x ∈ (Tbl.purge al T src name list st).2 := by
+  have hT' := Tbl.purge_WF al hT src name list st
+  obtain ⟨n0, hn0⟩ := (hT.hasOwner_iff x).1 ho
+  have hall : ∀ n, Tbl.getD (Tbl.purge al T src name list st).1 (x, n) = [] := by
+    have : Tbl.hasOwner (Tbl.purge al T src name list st).1 x = false := by simpa using hno
+    exact (hT'.hasOwner_false_iff x).1 this
+  have h0 := hall n0
+  rw [Tbl.purge_getD] at h0
+  split at h0
+  · rename_i hc
+    obtain ⟨hc1, hc2, hc3⟩ := hc
+    simp only at hc1 hc2 hc3
+    subst hc1
+    apply Tbl.purge_complete al T src n0 list st x hc2 hc3
+    obtain ⟨y, hy⟩ := List.exists_mem_of_ne_nil _ hn0
+    by_cases hys : y = src
+    · rw [← hys]; exact hy
+    · exfalso
+      have : y ∈ (Tbl.getD T (x, n0)).filter (· != src) := List.mem_filter.2 ⟨hy, by simpa using hys⟩
+      rw [h0] at this; simp at this
+  · exact absurd h0 hn0
+
+theorem unregNotify_inv {fuel : Nat} (hswf : ISwf (stoppedWaitFor fuel)) (hsn : ISn (stoppedNotify fuel))
+    {C W : List Nat} {s : State} (h : Inv C W none s) (src name : Nat) (hside : C = [] ∨ name = 0 ∨ 100 ≤ src) :
+    Ok (unregNotify (stoppedWaitFor fuel) (stoppedNotify fuel) s src name)
+      (Inv C W none (unregNotify (stoppedWaitFor fuel) (stoppedNotify fuel) s src name) ∧
+        G s (unregNotify (stoppedWaitFor fuel) (stoppedNotify fuel) s src name)) := by
+  unfold unregNotify
+  split
+  · exact Ok.pure ⟨h, G.refl s⟩
+  · cases hf : Tbl.find s.notify (src, name) with
+    | none => exact Ok.pure ⟨h, G.refl s⟩
+    | some list =>
+      have hg : Tbl.getD s.notify (src, name) = list := Tbl.find_eq_getD_of_some hf
+      have hne : Tbl.getD s.notify (src, name) ≠ [] := by rw [hg]; exact h.n.wfN.find_ne_nil hf
+      simp only [unregisterTargets_eq_purge, wakeLoop]
+      have hmir : Mirror (Tbl.removeKey s.notify (src, name)) (Tbl.purge s.alive s.waitFor src name list []).1 := by
+        have := h.tab.mir.purge_removeKey s.alive src name [] (fun l hl => h.waiters_alive src name l hl)
+        rw [hg] at this; exact this
+      have h1 : Inv C ((Tbl.purge s.alive s.waitFor src name list []).2.reverse ++ W) none
+          ({ ({ s with waitFor := (Tbl.purge s.alive s.waitFor src name list []).1 } : State) with
+            notify := Tbl.removeKey s.notify (src, name) }) := by
+        apply h.setTables _ _ (h.n.wfN.removeKey _) (Tbl.purge_WF _ h.n.wfW _ _ _ _) (Tbl.Sub.removeKey _ _)
+          (Tbl.Sub.purge _ _ _ _ _ _) hmir (fun x m => List.mem_append_right _ m)
+        intro x th hx hw ho
+        by_cases hno : Tbl.hasOwner (Tbl.purge s.alive s.waitFor src name list []).1 x = true
+        · exact Or.inr hno
+        · left
+          apply List.mem_append_left
+          rw [List.mem_reverse]
+          exact lost_owner_stopped h.n.wfW s.alive src name list [] ho hno
+      -- a waiter woken under a name other than 0 is idle
+      have hidle : name ≠ 0 → C = [] ∧ ∀ l ∈ (Tbl.purge s.alive s.waitFor src name list []).2.reverse, IdleP s l := by
+        intro hn
+        have hC : C = [] := by
+          rcases hside with e | e | e
+          · exact e
+          · exact absurd e hn
+          · exact absurd (h.n.n1 src name e hne) hn
+        refine ⟨hC, ?_⟩
+        intro l hl
+        rw [List.mem_reverse] at hl
+        rcases Tbl.purge_stopped s.alive s.waitFor src name list [] l hl with e | ⟨_, _, e3⟩
+        · simp at e
+        · have hown : Tbl.hasOwner s.waitFor l = true :=
+            (h.n.wfW.hasOwner_iff l).2 ⟨name, List.ne_nil_of_mem e3⟩
+          rcases h.lnk.linkC l hown with m | ⟨th, hth, hw⟩
+          · rw [hC] at m; simp at m
+          · refine ⟨(h.n.range l th hth).2, ?_⟩
+            intro th0 h0
+            rw [hth] at h0; cases h0
+            left
+            cases hv : th.vm with
+            | idling => rfl
+            | _ =>
+              exfalso
+              rcases h.lnk.f4 l th hth hw (by rw [hv]; simp) with e | e
+              · cases e
+              · exact hn (e name (List.ne_nil_of_mem e3))
+      have g1 : G s ({ ({ s with waitFor := (Tbl.purge s.alive s.waitFor src name list []).1 } : State) with
+            notify := Tbl.removeKey s.notify (src, name) }) := G.of_eq rfl rfl rfl rfl
+      have hidle1 : name ≠ 0 → C = [] ∧ ∀ l ∈ (Tbl.purge s.alive s.waitFor src name list []).2.reverse,
+          IdleP ({ ({ s with waitFor := (Tbl.purge s.alive s.waitFor src name list []).1 } : State) with
+            notify := Tbl.removeKey s.notify (src, name) }) l :=
+        fun hn => ⟨(hidle hn).1, fun l hl => ((hidle hn).2 l hl).of_g g1⟩
+      have P := presAll fuel
+      split
+      · refine (hsn C _ _ src h1).bind ?_ (fun p2 => ?_)
+        · exact Pres.foldl _ (fun s a => by split; exact P.swf _ _ _ _; exact Pres.refl s) _ _
+        have g2 : G _ (stoppedNotify fuel _ src) := ((qAll fuel).sn [] _ src h1.n).toG
+        refine (wakeFold_inv P.swf hswf C W name _ _ p2
+          (fun hn => ⟨(hidle1 hn).1, fun l hl => ((hidle1 hn).2 l hl).of_g g2⟩)).map (fun p3 => ⟨p3.1, ?_⟩)
+        exact G.trans h.n g1 (G.trans h1.n g2 p3.2)
+      · refine (wakeFold_inv P.swf hswf C W name _ _ h1 hidle1).map (fun p3 => ⟨p3.1, ?_⟩)
+        exact G.trans h.n g1 p3.2
+
+theorem unregister_inv_succ {fuel : Nat} (hdt : IDt (deleteThread fuel)) (hswf : ISwf (stoppedWaitFor fuel))
+    (hsn : ISn (stoppedNotify fuel)) : IUr (unregister (fuel + 1)) := by
+  intro C W s src name h hside
+  rw [unregister_succ]
+  have P := presAll fuel
+  have q1 := unregEndOn_q (nAll fuel).dt (qAll fuel).dt [] h.n src name
+  split
+  · exact (unregEndOn_inv P.dt hdt h src name).map (fun p => ⟨p, q1.toG⟩)
+  · refine (unregEndOn_inv P.dt hdt h src name).bind (unregNotify_pres P.swf P.sn _ _ _) (fun p => ?_)
+    exact (unregNotify_inv hswf hsn p src name hside).map (fun p2 => ⟨p2.1, G.trans h.n q1.toG p2.2⟩)
+
+/-! ### `UnregisterAll` -/
+
+theorem uaRest_inv {fuel : Nat} (hswf : ISwf (stoppedWaitFor fuel)) (hsn : ISn (stoppedNotify fuel))
+    {C W : List Nat} {s : State} (h : Inv C W none s) (src : Nat) :
+    Ok (uaRest (stoppedWaitFor fuel) (stoppedNotify fuel) s src)
+      (Inv C W none (uaRest (stoppedWaitFor fuel) (stoppedNotify fuel) s src) ∧
+        Tbl.hasOwner (uaRest (stoppedWaitFor fuel) (stoppedNotify fuel) s src).notify src = false) := by
+  unfold uaRest
+  split
+  · rename_i hno
+    exact Ok.pure ⟨h, by simpa using hno⟩
+  · simp only [killLoop]
+    have hfr := uaTargets_frame s src
+    have hmir : Mirror (Tbl.removeOwner s.notify src)
+        (Tbl.multiPurge s.alive s.waitFor src (Tbl.keysOf s.notify src) []).1 :=
+      h.tab.mir.multiPurge_removeOwner h.n.wfN s.alive src [] (fun n l hl => h.waiters_alive src n l hl)
+    have hWF := Tbl.multiPurge_WF s.alive src (Tbl.keysOf s.notify src) s.waitFor [] h.n.wfW
+    have h1 : Inv C (((uaTargets s src).2.reverse).map (·.1) ++ W) none
+        ({ ({ s with waitFor := (Tbl.multiPurge s.alive s.waitFor src (Tbl.keysOf s.notify src) []).1 } : State) with
+          notify := Tbl.removeOwner s.notify src }) := by
+      apply h.setTables _ _ (h.n.wfN.removeOwner _) hWF (Tbl.Sub.removeOwner _ _)
+        (Tbl.Sub.multiPurge _ _ _ _ _) hmir (fun x m => List.mem_append_right _ m)
+      intro x th hx hw ho
+      by_cases hno : Tbl.hasOwner (Tbl.multiPurge s.alive s.waitFor src (Tbl.keysOf s.notify src) []).1 x = true
+      · exact Or.inr hno
+      · left
+        apply List.mem_append_left
+        -- some entry of `x` changed: `x` waited for `src` under that name
+        obtain ⟨n0, hn0⟩ := (h.n.wfW.hasOwner_iff x).1 ho
+        have hall : Tbl.getD (Tbl.multiPurge s.alive s.waitFor src (Tbl.keysOf s.notify src) []).1 (x, n0) = [] := by
+          have : Tbl.hasOwner (Tbl.multiPurge s.alive s.waitFor src (Tbl.keysOf s.notify src) []).1 x = false := by
+            simpa using hno
+          exact (hWF.hasOwner_false_iff x).1 this n0
+        rw [Tbl.multiPurge_getD] at hall
+        split at hall
+        · rename_i hc
+          obtain ⟨⟨e, he, he1, he2⟩, _⟩ := hc
+          simp only at he1 he2
+          have hk := (h.n.wfN.mem_keysOf_iff src e.1 e.2).1 he
+          have hxl : x ∈ Tbl.getD s.notify (src, n0) := by rw [← he1, hk.1]; exact he2
+          have hsx := (h.tab.mir.mem_iff src n0 x).1 hxl
+          have := uaTargets_complete s src h.n.wfN n0 x hxl (h.waiters_alive src n0 x hxl) hsx
+          exact List.mem_map.2 ⟨(x, n0), List.mem_reverse.2 this, rfl⟩
+        · exact absurd hall hn0
+    have hown1 : Tbl.hasOwner (Tbl.removeOwner s.notify src) src = false := hasOwner_removeOwner_self h.n.wfN src
+    have P := presAll fuel
+    rw [hfr]
+    refine (hsn C _ _ src h1).bind ?_ (fun p2 => ?_)
+    · exact Pres.foldl _ (fun s a => by split; exact P.swf _ _ _ _; exact Pres.refl s) _ _
+    refine (killFold_inv P.swf hswf C W _ _ p2).map (fun p3 => ?_)
+    have q2 := (qAll fuel).sn [] _ src h1.n
+    have q3 := killLoop_q (nAll fuel).swf (qAll fuel).swf [] p2.n (uaTargets s src).2
+    unfold killLoop at q3
+    have hown3 := hasOwner_false_of_sub h1.n.wfN p3.n.wfN (q2.trans q3).subN hown1
+    exact ⟨p3, hown3⟩
+
+theorem unregisterAll_inv_succ {fuel : Nat} (hur : IUr (unregister fuel)) (hswf : ISwf (stoppedWaitFor fuel))
+    (hsn : ISn (stoppedNotify fuel)) : IUa (unregisterAll (fuel + 1)) := by
+  intro C W s src h
+  rw [unregisterAll_succ]
+  have P := presAll fuel
+  refine (hur C W s src 0 h (Or.inr (Or.inl rfl))).bind ?_ (fun p => ?_)
+  · exact (Pres.of_eq rfl rfl rfl : Pres (unregister fuel s src 0)
+      { (unregister fuel s src 0) with endOn := Tbl.removeOwner (unregister fuel s src 0).endOn src }).trans
+      (uaRest_pres P.swf P.sn _ _)
+  exact uaRest_inv hswf hsn (p.1.setEndOn _ (fun o ho => Or.inl (Tbl.hasOwner_removeOwner ho))) src
+
 end Morfuse.Sched
